@@ -165,7 +165,7 @@ func cmdCheck(args []string) {
 			params = map[string]int{}
 		}
 		if timeout == 0 {
-			timeout = 300
+			timeout = 900
 			if *tier == "thorough" {
 				timeout = 1800
 			}
